@@ -156,11 +156,11 @@ class Gen:
         return head + body + "    return out\n"
 
 
-def toy_module(rnd, n):
+def toy_module(rnd, n, name=None):
     g = Gen(rnd)
     src = "".join(g.function(f"toy_{i}") + "\n\n" for i in range(n))
     d = tempfile.mkdtemp(prefix="verif_toy_")
-    name = f"verif_toy_{os.getpid()}_{rnd.randint(0, 10**9)}"
+    name = name or f"verif_toy_{os.getpid()}_{rnd.randint(0, 10**9)}"
     path = os.path.join(d, name + ".py")
     with open(path, "w") as f:
         f.write(src)
@@ -309,6 +309,28 @@ def array_vs_scalar(run, func, fd, arg_rows, arg_names, fixed, label, keyname=No
                      "array": repr(out[k]), "scalar": repr(scalars[i][1]), "label": label})
             return "differs"
     return "agrees"
+
+
+def redefinition_search(run, rnd, n_rounds, n_funcs):
+    """A rule redefined under the same module and function name (a notebook cell run twice, two reform
+    files with the same basename) must get ITS OWN array form: rewrite one generation of functions,
+    then a second generation with the same names and different bodies."""
+    import shutil
+    outcomes = {}
+    for k in range(n_rounds):
+        name = f"verif_redef_{os.getpid()}_{k}"
+        for gen in range(2):
+            funs, d = toy_module(rnd, n_funcs, name=name)
+            for func, fd in funs:
+                rows = [{"x": rnd.choice([0.0, 1.0, -2.5, 10.0, 3.0]), "y": rnd.choice([0.0, 2.0, 0.5, -1.0]),
+                         "n": rnd.choice([0, 1, 2, 3]), "flag": rnd.random() < 0.5, "other": rnd.random() < 0.5}
+                        for _ in range(6)]
+                res = array_vs_scalar(run, func, ruleir.strip_docstrings(fd), rows, ["x", "y", "n", "flag", "other"],
+                                      {"p": {"a": 2.5, "t": {1: 4.0, 2: 8.0}}}, f"redefinition, generation {gen}",
+                                      keyname="random-program" if gen == 0 else "random-program-redefined")
+                outcomes[f"gen{gen}:{res}"] = outcomes.get(f"gen{gen}:{res}", 0) + 1
+            shutil.rmtree(d, ignore_errors=True)
+    run.extra["redefinition_array_vs_scalar"] = outcomes
 
 
 def real_rules_search(run, rnd, date, rows_per_rule):
@@ -466,6 +488,7 @@ def run(tier: str) -> int:
                               {"p": {"a": 2.5, "t": {1: 4.0, 2: 8.0}}}, "random program", keyname="random-program")
         outcomes[res] = outcomes.get(res, 0) + 1
     r.extra["random_programs_array_vs_scalar"] = outcomes
+    redefinition_search(r, rnd, 3 if quick else 20, 25 if quick else 60)
     for date in (["2023-07-01"] if quick else ["2005-01-01", "2012-01-01", "2015-01-01", "2019-07-01", "2023-07-01", "2025-01-01"]):
         real_rules_search(r, rnd, date, 12 if quick else 60)
     import shutil
